@@ -316,21 +316,18 @@ Lemma sl_uv s0 s v x : same_links s0 s -> same_links s0 (set_uv s v x). Proof. a
 Lemma sl_ul s0 s v x : same_links s0 s -> same_links s0 (set_ul s v x). Proof. auto. Qed.
 Lemma sl_la s0 s v x : same_links s0 s -> same_links s0 (set_la s v x). Proof. auto. Qed.
 
-Lemma uni_tail s1 L u vs V : link_inv s1 ->
+Lemma uni_tail s1 L u vs : link_inv s1 ->
   let R := bind (l_set_applies FUEL s1 L (Some u))
                 (fun s2 => seq_res (fun s v => u_add_vertex FUEL s u v) vs s2) in
-  link_inv (res_state R) /\
-  (forall e, snd (let '(r, out) := ok_or R V in (res_state r, out)) = Raised e -> e <> OutOfFuel ->
-             same_links s1 (res_state R)).
+  link_inv (res_state R) /\ only_oof R.
 Proof.
-  intros I1 R. assert (S' : same_links s1 (res_state R)).
-  { subst R. apply P_bind; [apply P_l_set_applies; auto using sl_ul, sl_la, same_links_refl|].
+  intros I1 R. split.
+  - apply (same_links_inv s1); [|exact I1].
+    subst R. apply P_bind; [apply P_l_set_applies; auto using sl_ul, sl_la, same_links_refl|].
     intros s2 H2. apply P_seq_res; [|exact H2]. intros s3 x H3.
-    apply P_u_add_vertex; auto using sl_vu, sl_uv. }
-  split; [now apply (same_links_inv s1)|].
-  intros e He Hne. exfalso. apply Hne. eapply only_oof_raised; [|exact He].
-  subst R. apply only_oof_bind; [apply only_oof_laws|]. intro s2.
-  apply only_oof_seq_res. intros. apply only_oof_uadd.
+    apply P_u_add_vertex; auto using sl_vu, sl_uv.
+  - subst R. apply only_oof_bind; [apply only_oof_laws|]. intro s2.
+    apply only_oof_seq_res. intros. apply only_oof_uadd.
 Qed.
 
 Lemma other_step_shape s o : wf s -> link_inv s -> link_op o = false ->
@@ -364,8 +361,13 @@ Proof.
     assert (I0 : link_inv s0) by (subst s0; now apply link_inv_alloc).
     assert (W0 : wf s0) by (subst s0; auto with st).
     destruct oL as [L|]; cbn [negb]; rewrite fst_ok_or.
-    + apply uni_tail. apply (same_links_inv s0); [split; reflexivity|exact I0].
-    + apply uni_tail. apply (same_links_inv (alloc KLaws s0)); [split; reflexivity|now apply link_inv_alloc].
+    + destruct (uni_tail (set_ul s0 u (Some L)) L u vs) as [HI HO].
+      { apply (same_links_inv s0); [split; reflexivity|exact I0]. }
+      split; [exact HI|]. intros e He Hne. exfalso. apply Hne. eapply only_oof_raised; [exact HO|exact He].
+    + destruct (uni_tail (set_ul (set_la (alloc KLaws s0) (next s0) (Some u)) u (Some (next s0))) (next s0) u vs)
+        as [HI HO].
+      { apply (same_links_inv (alloc KLaws s0)); [split; reflexivity|now apply link_inv_alloc]. }
+      split; [exact HI|]. intros e He Hne. exfalso. apply Hne. eapply only_oof_raised; [exact HO|exact He].
   - (* NewLaws *)
     cbn [fst snd res_state]. split; [|discriminate].
     apply (same_links_inv (alloc KLaws s)); [split; reflexivity|now apply link_inv_alloc].
@@ -396,3 +398,62 @@ Proof.
   - cbn [fst snd res_state]. split; [|discriminate].
     apply (same_links_inv s); [split; reflexivity|exact I].
 Qed.
+
+(* ---------- 3. every operation preserves the invariant ---------- *)
+Theorem link_inv_step s o : wf s -> link_inv s -> link_inv (fst (step s o)).
+Proof.
+  intros W I. destruct (link_op o) eqn:LO.
+  - destruct (link_step_shape s o W I LO) as [(s' & v & E & _ & I')|(e & E & _)]; rewrite E; auto.
+  - now apply other_step_shape.
+Qed.
+
+(* ---------- 4. every reachable state satisfies it ---------- *)
+Lemma link_inv_empty : link_inv empty.
+Proof.
+  split.
+  - intros v l. unfold vl, lv, empty, get; cbn. destruct v, l; cbn; tauto.
+  - intro v. unfold vl, empty, get; cbn. destruct v; constructor.
+Qed.
+Lemma link_inv_run ops : forall s, wf s -> link_inv s -> link_inv (run ops s).
+Proof.
+  induction ops as [|o r IH]; cbn [run fold_left]; auto. intros s W I.
+  apply IH; [now apply wf_step | now apply link_inv_step].
+Qed.
+Theorem link_inv_reachable : forall ops, link_inv (run ops empty).
+Proof. intro ops. apply link_inv_run; [apply wf_empty | apply link_inv_empty]. Qed.
+
+(* ---------- 5. a call that raised left every link list as it was; link operations have enough fuel ---------- *)
+Theorem raising_step_changes_nothing_links s o e : wf s -> link_inv s ->
+  snd (step s o) = Raised e -> e <> OutOfFuel ->
+  vlinks (fst (step s o)) = vlinks s /\ lverts (fst (step s o)) = lverts s.
+Proof.
+  intros W I He Hne. destruct (link_op o) eqn:LO.
+  - destruct (link_step_shape s o W I LO) as [(s' & v & E & _)|(e' & E & _)]; rewrite E in *; cbn [fst snd] in *.
+    + discriminate.
+    + auto.
+  - destruct (other_step_shape s o W I LO) as [_ H]. exact (H e He Hne).
+Qed.
+
+(* stronger form for the link operations: the whole state is unchanged *)
+Theorem raising_link_step_changes_nothing s o e : wf s -> link_inv s -> link_op o = true ->
+  snd (step s o) = Raised e -> fst (step s o) = s.
+Proof.
+  intros W I LO He.
+  destruct (link_step_shape s o W I LO) as [(s' & v & E & _)|(e' & E & _)]; rewrite E in *; cbn [fst snd] in *.
+  - discriminate.
+  - reflexivity.
+Qed.
+
+Theorem step_never_out_of_fuel s o : wf s -> link_inv s -> link_op o = true ->
+  snd (step s o) <> Raised OutOfFuel.
+Proof.
+  intros W I LO.
+  destruct (link_step_shape s o W I LO) as [(s' & v & E & _)|(e' & E & Hne)]; rewrite E; cbn [snd].
+  - discriminate.
+  - intros [= ->]. now apply Hne.
+Qed.
+
+Print Assumptions link_inv_step.
+Print Assumptions raising_step_changes_nothing_links.
+Print Assumptions step_never_out_of_fuel.
+Print Assumptions link_inv_reachable.
